@@ -15,8 +15,10 @@
 (*           other keys): the variable is the default, -k overrides it     *)
 (*   long    TRUE: --to/--from/--output/--keyring, FALSE: -t/-f/-o/-k      *)
 (*   alias   TRUE: enc/dec/pass/gen, FALSE: full command names             *)
-(*   sender  "first" | "last" | "absent"  where the sender's key is in the *)
-(*           decrypting keyring                                            *)
+(*   sender  "first" | "last" | "absent" | "badsum"  where the sender's    *)
+(*           key is in the decrypting keyring; "badsum": an entry with the *)
+(*           sender's 32 key bytes but a checksum that does not match,     *)
+(*           which is not a usable key and must not name anybody           *)
 (***************************************************************************)
 EXTENDS Integers, Sequences, FiniteSets
 
@@ -61,7 +63,7 @@ HasInput(cmd) == cmd # "key_generate"
 Configs ==
   {c \in [cmd : Cmds, cause : UNION {Causes(x) : x \in Cmds}, prior : {"absent", "present"},
           inp : {"file", "stdin"}, outp : {"file", "stdout"}, kr : {"opt", "env", "both"},
-          long : BOOLEAN, alias : BOOLEAN, sender : {"first", "last", "absent"}] :
+          long : BOOLEAN, alias : BOOLEAN, sender : {"first", "last", "absent", "badsum"}] :
      /\ c.cause \in Causes(c.cmd)
      /\ (~UsesKeyring(c.cmd) => c.kr = "opt")
      /\ (c.cmd # "decrypt" => c.sender = "first")
@@ -92,7 +94,7 @@ Expected(c) ==
   IF c.cause = "none"
   THEN [exit |-> 0, errline |-> FALSE,
         out |-> IF c.cmd = "key_generate" /\ c.prior = "present" THEN "appended" ELSE "full",
-        named |-> IF c.cmd = "decrypt" THEN (IF c.sender = "absent" THEN "unknown" ELSE "name") ELSE "n/a"]
+        named |-> IF c.cmd = "decrypt" THEN (IF c.sender \in {"absent", "badsum"} THEN "unknown" ELSE "name") ELSE "n/a"]
   ELSE IF c.cause \in OutputCauses
   THEN [exit |-> 1, errline |-> TRUE,
         out |-> IF c.cause = "output_dir_missing" THEN "absent" ELSE "n/a", named |-> "n/a"]
